@@ -276,7 +276,7 @@ struct Schedule
 					&& now.in_range(today + _start, today + _end))
 						active = true;
 			}
-			else if ( ((_start_day > _end_day && (result.tm_wday < _start_day && result.tm_wday > _end_day))
+			else if ( ((_start_day > _end_day && (result.tm_wday < _start_day && result.tm_wday >= _end_day))
 					  || (_start_day <= _end_day && result.tm_wday >= _end_day))
 						 && now > today + _end)
 					active = false;
